@@ -492,23 +492,8 @@ class RunLengthArray(NPSIndexable, np.lib.mixins.NDArrayOperatorsMixin):
         return RunLengthRaggedArray(*self._start_to_end(starts, stops))
 
     def _get_slice(self, s: slice) -> 'RunLengthArray':
-        step = 1 if s.step is None else s.step
+        start, end, step = s.indices(len(self))
         is_reverse = step < 0
-        start = 0
-        end = len(self)
-        if is_reverse:
-            start, end = (end-1, start-1)
-        if s.start is not None:
-            if s.start < 0:
-                start = len(self)+s.start
-            else:
-                start = s.start
-
-        if s.stop is not None:
-            if s.stop < 0:
-                end = len(self)+s.stop
-            else:
-                end = s.stop
         if is_reverse:
             start, end = (end+1, start+1)
         if start >= end:
